@@ -19,10 +19,18 @@ functions = [
      'subst': [(r'decoder_->bitstream_version\(\)', 'self->bitstream_version', 4), (r'!decoder_->buffer\(\)->Decode\(&num_attribute_data\)', '!DecoderBuffer_Decode_u8(self->buffer, &num_attribute_data)', 1),
                (r'!decoder_->buffer\(\)->Decode\(&(\w+)\)', r'!DecoderBuffer_Decode_u32(self->buffer, &\1)', 4), (r'!DecodeVarint\(&(\w+), decoder_->buffer\(\)\)', r'!DecodeVarint_u32(&\1, self->buffer)', 4),
                (r'std::numeric_limits<CornerIndex::ValueType>::max\(\)', 'UINT32_MAX', 1), (r'\bnum_encoded_vertices_\b', 'self->num_encoded_vertices_', 3)]},
+    {'name': 'KdOutIt_assign_vec3', 'file': 'src/draco/compression/attributes/kd_tree_attributes_decoder.cc',
+     'anchor': r'const Self &operator=\(const VectorD<CoeffT, 3> &val\)\s*\{', 'sig': 'void KdOutIt_assign_vec3(struct KdOutIt *self, const uint32_t *val)',
+     'subst': [(r'AttributeTuple &att = attributes_\[0\];', 'struct AttTuple *att = &self->attributes_[0];', 1), (r'PointAttribute \*attribute = std::get<0>\(att\);', 'struct PAStub *attribute = att->attribute;', 1),
+               (r'const AttributeValueIndex avi = attribute->mapped_index\(point_id_\);', 'const uint32_t avi = PA_mapped_index(attribute, self->point_id_);', 1),
+               (r'static_cast<uint32_t>\(attribute->size\(\)\)', 'PA_size(attribute)', 0), (r'attribute->size\(\)', 'PA_size(attribute)', 0),
+               (r'const uint32_t &offset = std::get<1>\(att\);', 'const uint32_t offset = att->offset;', 1),
+               (r'attribute->SetAttributeValue\(avi, &val\[0\] \+ offset\)', 'PA_SetAttributeValue(attribute, avi, &val[0] + offset)', 1), (r'return \*this;', 'return;', 1)]},
 ]
 UNIT = {'name': 'guards', 'structs': [], 'consts': [], 'functions': functions,
         'pre_text': ['struct GuardCtx { uint16_t bitstream_version; struct DecoderBuffer *buffer; int64_t remaining_at_entry; int32_t num_encoded_vertices_;\n'
-                     '                  uint32_t num_faces, num_encoded_vertices, num_encoded_symbols, num_encoded_split_symbols; };']}
+                     '                  uint32_t num_faces, num_encoded_vertices, num_encoded_symbols, num_encoded_split_symbols; };',
+                     'struct PAStub { uint32_t size; uint32_t mapped; };\nstruct AttTuple { struct PAStub *attribute; uint32_t offset; };\nstruct KdOutIt { struct AttTuple *attributes_; uint32_t point_id_; };']}
 SRC = 'contracts/guards.c'
 DEFS = ['-DDRACO_BACKWARDS_COMPATIBILITY_SUPPORTED']
 JOBS = []
@@ -34,6 +42,7 @@ J('AttributesDecoder.prologue.contract', 'h_enf_AttributesDecoder_Prologue', ['C
   replace=['DecoderBuffer_Decode_u32', 'DecodeVarint_u32', 'DecoderBuffer_remaining_size', 'alloc_table'])
 J('Edgebreaker.header.contract', 'h_enf_Edgebreaker_Header', ['C18', 'C02'], enforce='Edgebreaker_Header',
   replace=['DecoderBuffer_Decode_u32', 'DecodeVarint_u32', 'DecoderBuffer_Decode_u8'])
+J('KdOutIt.assign_vec3.contract', 'h_enf_KdOutIt_assign_vec3', ['C02', 'C03'], enforce='KdOutIt_assign_vec3', replace=['PA_mapped_index', 'PA_size', 'PA_SetAttributeValue'])
 TYPES_PRELUDE = ['core_types.h']
 COSIM = False
 ASSUMPTIONS = ['only the guard prologues of AttributesDecoder::DecodeAttributesDecoderData and MeshEdgebreakerDecoderImpl::DecodeConnectivity are sliced (statement regions); '
